@@ -49,6 +49,18 @@ def checkAllowed (v : DTValue) : Allowed → DTValue
 
 abbrev Name := List Char
 
+/-- white space around a type reference (the characters an attribute value or a text node of
+the model document can carry there) -/
+def isWs (c : Char) : Bool := c == ' ' || c == '\t' || c == '\n' || c == '\r'
+
+/-- `str::trim` -/
+def trim (s : Name) : Name := ((s.dropWhile isWs).reverse.dropWhile isWs).reverse
+
+/-- `ref_type.trim() == "Any"`: the type reference of an item definition names the type `Any`
+(`build_referenced_type_evaluator`, `build_collection_of_referenced_type_evaluator`,
+`item_definition_type.rs` `referenced_type` / `collection_of_referenced_type`). -/
+def isAny (n : Name) : Bool := trim n == "Any".toList
+
 /-- An item definition as classified by `item_definition_type`. -/
 inductive ItemDef where
   | simple (t : Simple) (av : Allowed)
@@ -128,10 +140,14 @@ def checkWith (k : Name → Option (DTValue → DTValue)) : ItemDef → DTValue 
   | .simple t av, v => if t.accepts v then checkAllowed v av else .null
   -- build_referenced_type_evaluator: the allowed values of the referencing definition
   -- restrict the referenced type (since 2093924)
+  -- (the type `Any`: every value conforms, only the allowed values restrict it; the name of the
+  -- referenced definition is the text of `typeRef` without the white space around it, `mod.rs:97-104`)
   | .referenced n av, v =>
-    match k n with
-    | some f => checkAllowed (f v) av
-    | none => .null
+    if isAny n then checkAllowed v av
+    else
+      match k (trim n) with
+      | some f => checkAllowed (f v) av
+      | none => .null
   -- build_component_type_evaluator
   | .component cs av, v =>
     match v with
@@ -146,15 +162,18 @@ def checkWith (k : Name → Option (DTValue → DTValue)) : ItemDef → DTValue 
     | .list xs => if allAccept t xs then checkAllowed (.list xs) av else .null
     | _ => .null
   -- build_collection_of_referenced_type_evaluator
+  -- (the type `Any`: every list is a collection of `Any`)
   | .collReferenced n av, v =>
     match v with
     | .list xs =>
-      match k n with
-      | some f =>
-        match refLoop f xs with
-        | some ys => checkAllowed (.list ys) av
+      if isAny n then checkAllowed (.list xs) av
+      else
+        match k (trim n) with
+        | some f =>
+          match refLoop f xs with
+          | some ys => checkAllowed (.list ys) av
+          | none => .null
         | none => .null
-      | none => .null
     | _ => .null
   -- build_collection_of_component_type_evaluator
   | .collComponent cs av, v =>
@@ -198,13 +217,6 @@ inductive VarType where
   | simple (t : Simple)
   | named (n : Name)
   deriving Repr, Inhabited, DecidableEq
-
-/-- white space around a type reference (the characters an attribute value or a text node of
-the model document can carry there) -/
-def isWs (c : Char) : Bool := c == ' ' || c == '\t' || c == '\n' || c == '\r'
-
-/-- `str::trim` -/
-def trim (s : Name) : Name := ((s.dropWhile isWs).reverse.dropWhile isWs).reverse
 
 /-- the arms `"string" => … "yearMonthDuration" => …` of `build_variable_evaluator` (`mod.rs:174-253`) -/
 def simpleOfName (n : Name) : Option Simple :=
@@ -268,10 +280,10 @@ def classify (hasTypeRef isBuiltin hasComponents isCollection : Bool) : Option K
 mutual
 def typeWith (k : Name → Option FType) : ItemDef → Option FType
   | .simple t _ => some t.ftype
-  | .referenced n _ => k n
+  | .referenced n _ => if isAny n then some .any else k (trim n)
   | .component cs _ => some (.ctx (typeEntries k cs))
   | .collSimple t _ => some (.list t.ftype)
-  | .collReferenced n _ => (k n).map .list
+  | .collReferenced n _ => if isAny n then some (.list .any) else (k (trim n)).map .list
   | .collComponent cs _ => some (.list (.ctx (typeEntries k cs)))
 /-- `BTreeMap::insert` of every component whose type evaluates to `Some`; modelled as an
 association list in declaration order (component names are distinct in the generated models). -/
@@ -325,13 +337,18 @@ def itemsConform (g : List (Name × DTValue) → Bool) : List DTValue → Bool
 mutual
 /-- The value conforms to the item definition (`k` says which values conform to a named
 definition): the simple type matches, every declared component is present and conforms and
-there is no other entry, every item of a collection conforms, and the allowed values hold. -/
+there is no other entry, every item of a collection conforms, and the allowed values hold.
+Every value conforms to the type `Any`, and every list is a collection of `Any`.  An item of a
+collection of a *named definition* is not null (as null is no item of a collection of a simple
+type or of components): the only collection with null items is the collection of `Any` itself. -/
 def conformsWith (k : Name → Option (DTValue → Bool)) : ItemDef → DTValue → Bool
   | .simple t av, v => t.accepts v && okAllowed v av
   | .referenced n av, v =>
-    match k n with
-    | some p => p v && okAllowed v av
-    | none => false
+    if isAny n then okAllowed v av
+    else
+      match k (trim n) with
+      | some p => p v && okAllowed v av
+      | none => false
   | .component cs av, v =>
     match v with
     | .ctx es => compsConform k cs es && sortedKeys es &&
@@ -344,9 +361,11 @@ def conformsWith (k : Name → Option (DTValue → Bool)) : ItemDef → DTValue 
   | .collReferenced n av, v =>
     match v with
     | .list xs =>
-      match k n with
-      | some p => xs.all p && okAllowed v av
-      | none => false
+      if isAny n then okAllowed v av
+      else
+        match k (trim n) with
+        | some p => xs.all (fun x => p x && x != .null) && okAllowed v av
+        | none => false
     | _ => false
   | .collComponent cs av, v =>
     match v with
@@ -399,9 +418,11 @@ item that becomes null is null as a whole. `kp` projects onto a named definition
 def projectWith (kp : Name → Option (DTValue → DTValue)) : ItemDef → DTValue → DTValue
   | .simple t av, v => if t.accepts v && okAllowed v av then v else .null
   | .referenced n av, v =>
-    match kp n with
-    | some f => keepAllowed (f v) av
-    | none => .null
+    if isAny n then keepAllowed v av
+    else
+      match kp (trim n) with
+      | some f => keepAllowed (f v) av
+      | none => .null
   | .component cs av, v =>
     match v with
     | .ctx es =>
@@ -416,9 +437,11 @@ def projectWith (kp : Name → Option (DTValue → DTValue)) : ItemDef → DTVal
   | .collReferenced n av, v =>
     match v with
     | .list xs =>
-      match kp n with
-      | some f => if (xs.map f).any (· = .null) then .null else keepAllowed (.list (xs.map f)) av
-      | none => .null
+      if isAny n then keepAllowed v av
+      else
+        match kp (trim n) with
+        | some f => if (xs.map f).any (· = .null) then .null else keepAllowed (.list (xs.map f)) av
+        | none => .null
     | _ => .null
   | .collComponent cs av, v =>
     match v with
